@@ -12,6 +12,7 @@ import (
 	"sort"
 	"strings"
 	"sync"
+	"sync/atomic"
 	"testing"
 
 	mxj "github.com/clbanning/mxj/v2"
@@ -36,7 +37,20 @@ func init() { register("C17", checkC17) }
 
 var c17Kinds = []string{"Xml", "XmlIndent", "Json", "JsonIndent", "ValuesForPath", "ValuesForPathSub", "ValuesForKey", "LeafNodes", "LeafPaths", "LeafValues",
 	"PathsForKey", "PathForKeyShortest", "Exists", "Elements", "Attributes", "Root", "Copy", "StringIndent", "Gob", "NewMap", "XmlWriter", "JsonWriter",
-	"SeqXml", "SeqXmlIndent", "SeqStringIndent", "DecodeXml", "DecodeSeq", "DecodeJson", "EncodePrivate", "AnyXml"}
+	"SeqXml", "SeqXmlIndent", "SeqStringIndent", "DecodeXml", "DecodeSeq", "DecodeJson", "EncodePrivate", "AnyXml", "ValuesForKeySub", "ExistsSub"}
+
+// freshSpec returns a sub-key argument that no earlier call of this process has used and whose outcome does not
+// depend on the number in it (no generated Map has a key or value "zz<n>"): request-dependent sub-key values are
+// what a server passes, and anything the library remembers per distinct argument would be written concurrently.
+var freshCounter int64
+
+func freshSpec(neg bool) string {
+	n := atomic.AddInt64(&freshCounter, 1)
+	if neg {
+		return fmt.Sprintf("!zz%d:*", n) // holds wherever the key is absent: everywhere
+	}
+	return fmt.Sprintf("a:zz%d", n) // holds nowhere
+}
 
 var c17SharedEncoders = map[string]bool{"Xml": true, "XmlIndent": true, "Json": true, "JsonIndent": true, "XmlWriter": true, "JsonWriter": true, "SeqXml": true, "SeqXmlIndent": true, "Gob": true, "Copy": true, "StringIndent": true}
 
@@ -61,7 +75,7 @@ func genC17(t *rapid.T) CaseC17 {
 		for i := 0; i < n; i++ {
 			o := OpC17{Kind: rapid.SampledFrom(c17Kinds).Draw(t, "kind")}
 			switch o.Kind {
-			case "ValuesForPath", "ValuesForPathSub", "Exists", "Elements", "Attributes", "NewMap":
+			case "ValuesForPath", "ValuesForPathSub", "Exists", "ExistsSub", "Elements", "Attributes", "NewMap":
 				if shape != nil {
 					o.Arg = pathString(genShapePath(t, shape, !lil && o.Kind != "NewMap" && rapid.Bool().Draw(t, "indexed")))
 				} else {
@@ -75,7 +89,7 @@ func genC17(t *rapid.T) CaseC17 {
 					}
 					o.Arg = strings.Join(segs, ".")
 				}
-			case "ValuesForKey", "PathsForKey", "PathForKeyShortest":
+			case "ValuesForKey", "ValuesForKeySub", "PathsForKey", "PathForKeyShortest":
 				o.Arg = rapid.SampledFrom(keys).Draw(t, "key")
 			}
 			c.Plans[gi] = append(c.Plans[gi], o)
@@ -118,7 +132,17 @@ func runOpC17(o OpC17, shared mxj.Map, sharedSeq mxj.MapSeq, doc []byte, jdoc []
 		return fmt.Sprintf("%v|%v", sortedStrs(v), err)
 	case "ValuesForPathSub":
 		v, err := shared.ValuesForPath(o.Arg, "a:*")
-		return fmt.Sprintf("%v|%v", sortedStrs(v), err)
+		v2, err2 := shared.ValuesForPath(o.Arg, freshSpec(true))
+		v3, err3 := shared.ValuesForPath(o.Arg, "a:*", freshSpec(false))
+		return fmt.Sprintf("%v|%v|%v|%v|%v|%v", sortedStrs(v), err, sortedStrs(v2), err2, sortedStrs(v3), err3)
+	case "ValuesForKeySub":
+		v, err := shared.ValuesForKey(o.Arg, freshSpec(true))
+		v2, err2 := shared.ValuesForKey(o.Arg, freshSpec(false))
+		return fmt.Sprintf("%v|%v|%v|%v", sortedStrs(v), err, sortedStrs(v2), err2)
+	case "ExistsSub":
+		b, err := shared.Exists(o.Arg, freshSpec(true))
+		b2, err2 := shared.Exists(o.Arg, freshSpec(false))
+		return fmt.Sprintf("%v|%v|%v|%v", b, err, b2, err2)
 	case "ValuesForKey":
 		v, err := shared.ValuesForKey(o.Arg)
 		return fmt.Sprintf("%v|%v", sortedStrs(v), err)
